@@ -1,6 +1,7 @@
 package e3
 
 import (
+	"errors"
 	"fmt"
 	"os"
 	"path/filepath"
@@ -49,7 +50,15 @@ func runC10(w *core.WorkerCtx, idx int) *core.CaseResult {
 	r := core.NewRng(w.Seed, 0xC10, uint64(idx))
 	res := &core.CaseResult{}
 	dir := filepath.Join(w.Scratch, fmt.Sprintf("c10-%d", idx))
-	rg, err := newRig(dir, rigLongTimeout, "")
+	// Prometheus' TSDB status API (where the sidecar gets the head series from) fails while headFail is set
+	headFail := false
+	headFn := func() (int64, error) {
+		if headFail {
+			return 0, errors.New("prometheus: /api/v1/status/tsdb: connection refused")
+		}
+		return 0, nil
+	}
+	rg, err := newRigHead(dir, rigLongTimeout, "", headFn)
 	if err != nil {
 		res.Inconcl = "rig: " + err.Error()
 		return res
@@ -95,6 +104,25 @@ func runC10(w *core.WorkerCtx, idx int) *core.CaseResult {
 			}
 			if s.Series != m.series || s.TotalSeries != m.total {
 				res.Violate("C10/series", "after %s: target %d series/total %d/%d, expected %d/%d", after, h, s.Series, s.TotalSeries, m.series, m.total)
+			}
+		}
+		if r.Intn(4) == 0 {
+			// a poll while Prometheus' TSDB API fails: the sidecar may refuse to answer, but whatever it does answer
+			// about being idle must be true now
+			headFail = true
+			rtF, errF := rg.in.Runtime()
+			headFail = false
+			res.AddStat("runtimeinfo_polls_while_the_head_series_query_fails", 1)
+			if errF == nil && rtF != nil {
+				res.AddStat("of_those_answered", 1)
+				switch {
+				case !idleNow && rtF.IdleStartAt != nil:
+					res.Violate("C10/idle-not-cleared", "after %s (runtimeinfo polled while Prometheus' TSDB API fails): %d targets assigned but the shard reports idle since %s", after, len(model.st), rtF.IdleStartAt.Format(time.RFC3339Nano))
+				case idleNow && rtF.IdleStartAt == nil:
+					res.Violate("C10/idle-not-reported", "after %s (runtimeinfo polled while Prometheus' TSDB API fails): assignment is empty but the shard does not report being idle", after)
+				case idleNow && model.idleSeen && !rtF.IdleStartAt.Equal(*model.idleAt):
+					res.Violate("C10/idle-since-changed", "after %s (runtimeinfo polled while Prometheus' TSDB API fails): idle since %s, previously reported %s for the same idle period", after, rtF.IdleStartAt.Format(time.RFC3339Nano), model.idleAt.Format(time.RFC3339Nano))
+				}
 			}
 		}
 		rt, err := rg.in.Runtime()
@@ -377,7 +405,7 @@ func runC10(w *core.WorkerCtx, idx int) *core.CaseResult {
 			}
 			rg.close()
 			rg.srv = nil
-			if err := rg.build(nil); err != nil {
+			if err := rg.build(headFn); err != nil {
 				res.Violate("C10/restart-fails", "restart on the store failed: %v", err)
 				break
 			}
@@ -441,6 +469,7 @@ func init() {
 		Rule: "case = seed-determined sequence of 5-40 operations on one real sidecar over a universe of 6 targets / 2 jobs: update (adds, removals, pure state flips, exact repeats, empty set, moves between jobs), scrape through the real proxy (successful with 0-59 samples, or failing with 503; assigned and unassigned hashes), update arriving while a scrape of a kept target is held inside the round trip to the target, update whose Prometheus-reload callback fails (the idle/status invariants must hold all the same; no restart until a clean update), restart (all objects rebuilt on the same store directory); after every operation /targets/status/ and /runtimeinfo/ are compared with a ~60-line reference model of (status map, idle-since); " +
 			"two further operations: an update that keeps a target arrives while a scrape of it is held inside the harness transport (the model applies the update, then the scrape), and an update whose Prometheus-reload callback fails (the request fails, the in-memory state is still the requested one, nothing is persisted until the next clean update); " +
 			"in one case in four an old version's targets.json (one target) is left next to the current store before every restart - it must mean nothing once the current store exists; " +
+			"one check in four also polls /runtimeinfo/ while the head-series query (Prometheus' TSDB API) fails: an answer, if any, must be true about idleness; " +
 			"idle-since is judged by equality with the instant first reported for the idle period and by bracketing that first report with the harness' clock readings around the emptying update; non-trivial = at least 5 operations; distinct = hash of the operation sequence",
 		Assumptions: []string{
 			"conflicting duplicates of one hash inside a single request are not generated (the statement does not define them)",
